@@ -1,5 +1,8 @@
+mod craft;
 mod fixtures;
+mod libapi;
 mod refimpl;
+mod replay;
 
 use refimpl::Ref;
 
@@ -24,6 +27,35 @@ fn main() {
                 println!("FIXTURE-MISMATCH {f}");
             }
             std::process::exit(if t.failed.is_empty() { 0 } else { 2 });
+        }
+        "replay" => {
+            // zkv replay <cases.ndjson> <report.json> [--flip-stride N] [--threads N] [--chunks a,b,c]
+            let r = Ref::load(&layouts);
+            libapi::install_quiet_panic_hook();
+            let text = std::fs::read_to_string(&args[2]).expect("cases file");
+            let cases: Vec<serde_json::Value> = text.lines().filter(|l| !l.trim().is_empty()).map(|l| serde_json::from_str(l).expect("case line")).collect();
+            let seed: u64 = std::env::var("VERIF_SEED").ok().and_then(|s| s.parse().ok()).unwrap_or(1);
+            let mut flip_stride = 0usize;
+            let mut threads = 8usize;
+            let mut chunks: Vec<usize> = vec![1, 32, 255, 256];
+            let mut i = 4;
+            while i < args.len() {
+                match args[i].as_str() {
+                    "--flip-stride" => { flip_stride = args[i + 1].parse().unwrap(); i += 2; }
+                    "--threads" => { threads = args[i + 1].parse().unwrap(); i += 2; }
+                    "--chunks" => { chunks = args[i + 1].split(',').map(|x| x.parse().unwrap()).collect(); i += 2; }
+                    _ => usage(),
+                }
+            }
+            let cfg = replay::Cfg { insts: chunks.iter().map(|&c| replay::Inst { seed, chunk: c }).collect(), flip_stride, budget_slack: 0 };
+            let rep = replay::run_cases(&r, &cases, &cfg, threads);
+            let out = serde_json::json!({
+                "cases": rep.cases, "concrete_runs": rep.concrete_runs, "steps": rep.steps, "flips": rep.flips,
+                "checks": rep.checks, "mismatches": rep.mismatches, "drift": rep.drift, "samples": rep.samples,
+            });
+            std::fs::write(&args[3], serde_json::to_string_pretty(&out).unwrap()).unwrap();
+            println!("replayed cases={} runs={} steps={} flips={} mismatches={} drift={}", rep.cases, rep.concrete_runs, rep.steps, rep.flips, rep.mismatches.len(), rep.drift.len());
+            std::process::exit(0);
         }
         _ => usage(),
     }
